@@ -2,6 +2,7 @@ package engine
 
 import (
 	"fmt"
+	"runtime/debug"
 	"time"
 )
 
@@ -44,8 +45,13 @@ type SeqReplay struct {
 	Txt []string `json:"txt"`
 }
 
-func replaySeq(cfg *SeqCfg, hist []int) (SeqSys, *Violation) {
-	s := cfg.New()
+func replaySeq(cfg *SeqCfg, hist []int) (s SeqSys, v *Violation) {
+	defer func() {
+		if r := recover(); r != nil {
+			v = &Violation{Kind: "panic", Key: "panic", Detail: fmt.Sprintf("panic: %v\n%s", r, firstLines(string(debug.Stack()), 40))}
+		}
+	}()
+	s = cfg.New()
 	for _, op := range hist {
 		if v := s.Apply(op); v != nil {
 			return s, v
